@@ -111,6 +111,7 @@ B_known(ev, e) == \A i \in DOMAIN ev.msgs : LET m == ev.msgs[i] IN              
 B_together(ev) == ev.count < 255 =>                                                    \* C09: what fits together travels together
                     \A i \in DOMAIN ev.left : ev.left[i] + Overhead(ev.count + 1) + SumMsgs(ev.msgs) > Area
 B_sealed(ev) == ev.sealed                                                              \* C03: AES-GCM under the session key, whole header authenticated
+B_aad(ev) == ev.nseals = 1 /\ ev.aadok = 1 /\ ev.leak = 0                               \* C03: exactly one seal, nonce = first 12 header bytes, AAD = the 20 header bytes, no payload bytes in clear
 B_sec(ev) == ev.sec = ev.now \div 10000                                                \* C03: the nonce's time field is the clock's second
 B_rate(ev) == ev.gap = -1 \/ ev.gap >= P.interval - Slack                              \* C03 premise: send-rate cap
 B_dir(ev, e) == (ev.toserver = 1) <=> (e = "c")                                        \* C03: direction byte separates the two nonce spaces
@@ -261,9 +262,9 @@ Clauses ==
           ~CASE c = "S_refuse" -> S_refuse(ev) [] c = "S_ok" -> S_ok(ev) [] c = "S_single" -> S_single(ev) [] c = "S_frag" -> S_frag(ev, ev.e)
              [] c = "S_fit" -> S_fit(ev) [] c = "S_seq" -> S_seq(ev, ev.e) [] c = "S_retry" -> S_retry(ev)}
     ELSE IF ev.ev = "build" THEN
-       {c \in {"B_seq", "B_ack", "B_size", "B_count", "B_known", "B_together", "B_sealed", "B_sec", "B_rate", "B_dir"} :
+       {c \in {"B_seq", "B_ack", "B_size", "B_count", "B_known", "B_together", "B_sealed", "B_aad", "B_sec", "B_rate", "B_dir"} :
           ~CASE c = "B_seq" -> B_seq(ev, ev.e) [] c = "B_ack" -> B_ack(ev, ev.e) [] c = "B_size" -> B_size(ev) [] c = "B_count" -> B_count(ev)
-             [] c = "B_known" -> B_known(ev, ev.e) [] c = "B_together" -> B_together(ev) [] c = "B_sealed" -> B_sealed(ev)
+             [] c = "B_known" -> B_known(ev, ev.e) [] c = "B_together" -> B_together(ev) [] c = "B_sealed" -> B_sealed(ev) [] c = "B_aad" -> B_aad(ev)
              [] c = "B_sec" -> B_sec(ev) [] c = "B_rate" -> B_rate(ev) [] c = "B_dir" -> B_dir(ev, ev.e)}
     ELSE IF ev.ev = "skip" THEN (IF K_notstuck(ev) THEN {} ELSE {"K_notstuck"})
     ELSE IF ev.ev = "builderr" THEN {"B_noraise"}
